@@ -92,13 +92,14 @@ def _ctx(scn, idx):
     if e.get('ev') == 'quiesce':
         sig['open_kinds'] = sorted(set(sid_kind.get((e['ep'], s), '?') for s in e.get('streams', [])))
     if e.get('ev') in ('cb_next', 'cb_complete', 'cb_error', 'cb_future'):
-        prior = [x['ev'] for x in ev[:idx - 1] if x.get('iid') == e.get('iid') and x.get('role') == e.get('role')
-                 and x['ev'] in ('app_cancel', 'cb_complete', 'cb_error', 'app_fut_cancel')]
+        prior = [('cb_next_complete' if x['ev'] == 'cb_next' else x['ev']) for x in ev[:idx - 1]
+                 if x.get('iid') == e.get('iid') and x.get('role') == e.get('role')
+                 and (x['ev'] in ('app_cancel', 'cb_complete', 'cb_error', 'app_fut_cancel') or (x['ev'] == 'cb_next' and x.get('C')))]
         sig['prior'] = prior[-1] if prior else ''
     return e, sig
 
 
-def check(v, prop, families, extra_clause_props=()):
+def check(v, prop, families, extra_clause_props=(), also=()):
     """families: list of dicts {family, knobs, quick, thorough, tidbase}.  Failures of clauses named <prop>.* (or
     listed in extra_clause_props) are violations of `prop`; others are recorded as observations only."""
     thorough = common.tier() == 'thorough'
@@ -128,7 +129,7 @@ def check(v, prop, families, extra_clause_props=()):
                           'scenario did not run to quiescence (%s)' % s['status'], _replay(s))
         for clause, idx in fs:
             p = clause.split('.')[0]
-            if p in mine:
+            if p in mine or clause in also:
                 e, sig = _ctx(s, idx)
                 nfail += 1
                 v.add_failure(clause, sig, 'family=%s scenario=%d event#%d %s' % (s['family'], s['tid'], idx, _brief(e)),
